@@ -276,6 +276,18 @@ def standard_units(tier, with_circuit_format=True, sign_mode="full", thin=1):
                     gens = M.run(M.local_layer_gates([c] * n), n, base)
                     specs.append(("gens", n, [M.pauli_str(p, n, with_sign=False) for p in gens], [(gid + c) % (1 << n)]))
             units.append(("n=%d %s: table graph states with the same local Clifford on every qubit" % (n, conn), specs, [conn], ["matrices"]))
+    if quick:
+        # sparse ball for every configuration: one non-identity local Clifford on each qubit in turn
+        for conn in M.configs_for(6):
+            specs = []
+            for k, gid in enumerate(table_graphs(6, conn)):
+                base = B.graph_states_gens(6, gid)
+                for q in range(6):
+                    choice = [0] * 6
+                    choice[q] = 1 + (k + q) % 5
+                    gens = M.run(M.local_layer_gates(choice), 6, base)
+                    specs.append(("gens", 6, [M.pauli_str(p, 6, with_sign=False) for p in gens], [(k * 7 + q) % 64]))
+            units.append(("n=6 %s: table graph states with one local Clifford on one qubit (each qubit in turn)" % conn, specs, [conn], ["matrices"]))
     confs6 = M.configs_for(6)
     step6 = 16 if quick else 1
     for k, conn in enumerate(confs6):
